@@ -23,7 +23,7 @@ from sim.net import Link
 
 PROPERTY = "C13"
 LEVEL = "exploration"
-BUDGET = {"quick": {"runs": 1400, "wall": 55}, "thorough": {"runs": 60000, "wall": 570}}
+BUDGET = {"quick": {"runs": 2800, "wall": 55}, "thorough": {"runs": 60000, "wall": 570}}
 T_CALL = 5.0
 T_INACTIVE = 2.0
 STEP_CAP = 200000
@@ -36,7 +36,9 @@ LOSSES = ("peer-close", "link-eof", "link-reset", "link-error-one-arg", "local-c
           "protocol-error")
 PHASES = ("blocked-first", "racing", "after")
 PROXY_APIS = ("recv", "exec_command", "open_session", "global_request", "sendall", "auth_password", "recv_exit_status")
-PROXY_CASES = [("proxy:" + a, "proxy-exit", ph) for a in PROXY_APIS for ph in ("blocked-first", "racing", "after")]
+# proxy-output-ends: the command closes its output but does not exit (a relay that waits for its input to end)
+PROXY_CASES = [("proxy:" + a, l, ph) for a in PROXY_APIS for l in ("proxy-exit", "proxy-output-ends")
+               for ph in ("blocked-first", "racing", "after")]
 CASES = PROXY_CASES + [(a, l, ph) for a in CLIENT_APIS + SERVER_APIS for l in LOSSES for ph in PHASES
          # start_* on a transport that is not running yet: closing it beforehand is a no-op, so only
          # 'the call is already blocked when the loss happens' is meaningful there
@@ -90,6 +92,19 @@ class FakeProcess:
         self.stdout = FakeStdout(sock)
         self.stderr = None
         self.returncode = None
+
+    def poll(self):
+        return self.returncode
+
+    def wait(self, timeout=None):
+        return self.returncode
+
+    def kill(self):
+        if self.returncode is None:
+            self.returncode = -9
+            self.sock.close()
+
+    terminate = kill
 
 
 def proxy_modules(sim, sock, box):
@@ -292,6 +307,8 @@ def scenario(sim):
             # the proxy process dies: its stdout reaches end of file
             box["proc"].returncode = 1
             link.cut(1, "eof")
+        elif loss == "proxy-output-ends":
+            link.cut(1, "eof")
         elif loss == "peer-close":
             peer.close() if not raw_start else (link.b if victim_role == "client" else link.a).close()
         elif loss == "link-eof":
@@ -379,6 +396,34 @@ def scenario(sim):
                             % (api, phase, ctimeout, "is still spinning" if spinning else "has not returned",
                                sim.now - ref, loss, core.where_parked(t)), desc)
     desc["outcome"] = result.get("how")
+    # "... and so does every such call made afterwards": not only the first one.  A second wave of calls that send
+    # something (a first call after the loss may leave state behind that only the next one trips over)
+    if not raw_start:
+        wave = [("send_ignore", lambda: victim.send_ignore(8)),
+                ("global_request", lambda: victim.global_request("keepalive@verif", wait=False)),
+                ("renegotiate_keys", lambda: victim.renegotiate_keys()),
+                ("send_ignore-again", lambda: victim.send_ignore(8))]
+        order = [wave[sim.choose(len(wave))] for _ in range(2 + sim.choose(2))]
+        for name, fn in order:
+            box2 = {}
+
+            def run2(fn=fn):
+                try:
+                    fn()
+                    box2["how"] = "returned"
+                except Exception as e:
+                    box2["how"] = "raised " + type(e).__name__
+            t0 = sim.now
+            t2 = sim.spawn(run2, "later-" + name)
+            while t2.state != core.DONE:
+                sim.sleep(0.25)
+                if sim.now - t0 > T_CALL + 0.5:
+                    raise Violation(("C13", "call-never-returns", "later-" + name.split("-")[0], "after-" + api.split(":")[-1],
+                                     core.where_parked(t2)),
+                                    "%s, made after the connection had ended by %s and after %s had returned, has not "
+                                    "returned for %.1f virtual s; parked in %s (earlier in this wave: %s)"
+                                    % (name, loss, api, sim.now - t0, core.where_parked(t2), [n for n, _ in order]), desc)
+            sim.probe("later_call_" + box2.get("how", "?").split(" ")[0])
     # the transport itself must have noticed
     if not raw_start or victim.is_alive():
         waited = 0.0
